@@ -7,6 +7,7 @@ import RQ.Gen.Tables
 import RQ.Lemmas.Sorted
 import Mathlib.Tactic.Linarith
 import RQ.Lemmas.WorldF
+import RQ.Lemmas.WorldI
 
 namespace RQ.Props.C08
 open RQ.Q
@@ -398,5 +399,23 @@ theorem world_day_structure_keeps_books_quiet (w : World) (days : List RQ.Lemmas
     (w.run (days.flatMap RQ.Lemmas.WorldF.Day.inputs)).1.openOrders = [] ∧
     (w.run (days.flatMap RQ.Lemmas.WorldF.Day.inputs)).1.auctionOrders = [] :=
   RQ.Lemmas.WorldF.days_quiet w days hc ho ha
+
+
+/-- **the capstone: C08 ⇒ C09 ∧ C10 for every daily back-test of the composed system.**  A well-formed start (empty books, nothing
+reserved, position validators on), any number of trading days in the executor's order, any market with positive split ratios, any calls of
+the strategy inside its two callbacks with positive order quantities and pairwise different order ids.  Then after EVERY prefix of the run
+(every observation point) no position quantity is negative, resting closes are within the holdings, and every account's reserved cash is
+what its resting orders still hold.  All hypotheses are about the start state, the market tables and the submitted orders only. -/
+theorem world_daily_backtest_invariants (w : World) (days : List RQ.Lemmas.WorldF.Day) (hc : ∀ d ∈ days, d.CallsOnly)
+    (ho : w.openOrders = []) (ha : w.auctionOrders = [])
+    (hf : ∀ (k : Nat) (a : Acct), w.pf.accounts[k]? = some a → a.frozen = 0)
+    (hv : RQ.Lemmas.WorldE.ValidatorsOn w) (hwf : RQ.Lemmas.WorldE.HoldingsWF w) (hinv : RQ.Lemmas.WorldE.CloseInv w)
+    (hi : ∀ i ∈ days.flatMap RQ.Lemmas.WorldF.Day.inputs, RQ.Lemmas.WorldC.InputOk i)
+    (hids : (RQ.Lemmas.WorldC.submittedIds (days.flatMap RQ.Lemmas.WorldF.Day.inputs)).Nodup)
+    (hs : RQ.Lemmas.WorldI.SplitsPositive (days.flatMap RQ.Lemmas.WorldF.Day.inputs))
+    (pre post : List WIn) (hsplit : days.flatMap RQ.Lemmas.WorldF.Day.inputs = pre ++ post) :
+    (∀ (k : Nat) (a : Acct), (w.run pre).1.pf.accounts[k]? = some a → ∀ h ∈ a.holdings, 0 ≤ h.long.qty ∧ 0 ≤ h.short.qty) ∧
+    RQ.Lemmas.WorldE.CloseInv (w.run pre).1 ∧ RQ.Lemmas.WorldC.ReserveInv (w.run pre).1 :=
+  RQ.Lemmas.WorldI.daily_backtest_invariants_prefix w days hc ho ha hf hv hwf hinv hi hids hs pre post hsplit
 
 end RQ.Props.C08
